@@ -309,6 +309,19 @@ def rule_r2(ctx):
     ctx.require(n >= 4, "fewer than 4 sub-byte storage guards found")
 
 
+def _polar_width_guard(test: ast.AST, bw):
+    """(widths, positive): the guard is a width test W written positively (`x in S`, `bitwidth == k`) or negated (`x not in S`,
+    `not (…)`, `!=`): in the positive form its true branch admits W and its false branch excludes W; negated, the other way round."""
+    t, positive = test, True
+    while isinstance(t, ast.UnaryOp) and isinstance(t.op, ast.Not):
+        t, positive = t.operand, not positive
+    if isinstance(t, ast.Compare) and len(t.ops) == 1 and isinstance(t.ops[0], (ast.NotIn, ast.NotEq)):
+        flipped = ast.Compare(left=t.left, ops=[ast.In() if isinstance(t.ops[0], ast.NotIn) else ast.Eq()], comparators=t.comparators)
+        ast.copy_location(flipped, t)
+        t, positive = flipped, not positive
+    return _width_of_guard(t, bw), positive
+
+
 def _width_of_guard(test: ast.AST, bw, negated=False) -> set[int] | None:
     """Set of bit widths a (true) guard admits; None if it says nothing about width."""
     if isinstance(test, ast.BoolOp) and isinstance(test.op, ast.And):
@@ -331,6 +344,12 @@ def _width_of_guard(test: ast.AST, bw, negated=False) -> set[int] | None:
         if isinstance(test.ops[0], ast.Eq) and _dt(r) in bw:
             return {bw[_dt(r)]}
     return None
+
+
+def _strip_not(t):
+    while isinstance(t, ast.UnaryOp) and isinstance(t.op, ast.Not):
+        t = t.operand
+    return t
 
 
 def _exact_width_guard(test: ast.AST) -> bool:
@@ -386,14 +405,13 @@ def _controlling_widths(node: ast.AST, bw) -> set[int] | None:
                         asserted = w if asserted is None else asserted & w
         if fn is not None:
             break
-        if isinstance(p, ast.If) and child in p.body:
-            w = _width_of_guard(p.test, bw)
-            if w is not None:
+        if isinstance(p, ast.If) and (child in p.body or child in p.orelse):
+            w, positive = _polar_width_guard(p.test, bw)
+            in_true_arm = (child in p.body) == positive  # the arm in which the (positive) width test holds
+            if w is not None and in_true_arm and (positive or _exact_width_guard(_strip_not(p.test))):
                 out = w if out is None else out & w
-        elif isinstance(p, ast.If) and child in p.orelse:
-            # the else branch of a width guard: the widths the guard admits are excluded
-            w = _width_of_guard(p.test, bw)
-            if w is not None and _exact_width_guard(p.test):
+            elif w is not None and not in_true_arm and _exact_width_guard(_strip_not(p.test)):
+                # the arm where an exact width test fails: the widths it names are excluded
                 excluded |= w
         child = p
         p = getattr(p, "_parent", None)
